@@ -5,7 +5,7 @@
     the "+ 1e-14/a" term, which is decided per run by an exact rational
     certificate (Corr/C01.v). *)
 From Coq Require Import List Arith Bool ZArith Reals.
-From ET Require Import Model.Scalar Model.Sparse Model.Basic Proofs.SparseBase Proofs.RInst Proofs.BasicProofs
+From ET Require Import Model.Scalar Model.Sparse Model.Basic Proofs.SparseBase Proofs.RInst Proofs.BasicProofs Proofs.FixedPoint
   Proofs.ComputeProofs Proofs.Analytic Proofs.AnalyticModel Proofs.AnalyticTop.
 Import ListNotations.
 Local Open Scope R_scope.
@@ -47,8 +47,27 @@ Theorem C01_converged_bound :
 Proof. exact compute_converged_bound. Qed.
 Print Assumptions C01_converged_bound.
 
-(** PARTIAL (existence): the theorem bounds the distance to *every* fixed
-    point and proves there is at most one; existence of the fixed point over R
-    is not proved here (no Banach fixed-point theorem in the installed
-    libraries); for each concrete run the correspondence check receives an exact
-    rational fixed point and verifies it in the kernel. *)
+(** Existence: the iteration started at the pre-trust converges coordinate-wise (geometric Cauchy
+    bound from the contraction, completeness of R) to a fixed point, which is a distribution; by
+    uniqueness it is THE EigenTrust vector of (C, p, a). *)
+Theorem C01_fixed_point_exists :
+  forall (n : nat) (C : csm RR) (p : vec RR) (a : R),
+    row_stochastic C -> major C = n -> distribution p -> vdim p = n -> 0 < a -> a <= 1 ->
+    exists ts, fixed_point n C p a ts /\ (forall j, (j < n)%nat -> 0 <= ts j) /\ rsum ts n = 1 /\
+               forall j, (j < n)%nat -> Un_cv (fun k => xk n C p a k j) (ts j).
+Proof. exact fixed_point_exists. Qed.
+Print Assumptions C01_fixed_point_exists.
+
+(** Main theorem, closed form: there is a distribution ts, the unique solution of
+    t = (1-a) C^T t + a p, such that every run that ended by its criteria returned a vector within
+    ((1-a)/a) * sqrt n * e of it. *)
+Theorem C01_converged_to_the_eigentrust_vector :
+  forall (C : csm RR) (p : vec RR) (a e : RR) (o : opts RR),
+    canonical C p a e o -> 0 < a ->
+    exists ts, fixed_point (major C) C p a ts /\ (forall j, (j < major C)%nat -> 0 <= ts j) /\ rsum ts (major C) = 1 /\
+      (forall s, fixed_point (major C) C p a s -> forall j, (j < major C)%nat -> s j = ts j) /\
+      forall fuel t k st, compute fuel C p a e o = Done t k st -> eff_mx o <> Some k ->
+        l1 (major C) (fun j => dv t j - ts j) <= ((1 - a) / a) * (sqrt (INR (major C)) * e).
+Proof. exact compute_converges_to_eigentrust. Qed.
+Print Assumptions C01_converged_to_the_eigentrust_vector.
+
